@@ -14,9 +14,12 @@ THEOREMS = [
     'Pysmi.Compile.failed_reaches_gate',
     'Pysmi.Compile.C09_unrepaired_failure_blocks',
     'Pysmi.Compile.C09_generation_failure_blocks',
+    'Pysmi.Compile.pending_discover',
+    'Pysmi.Compile.C09_missing_module_blocks',
+    'Pysmi.Compile.missCfg_hyps',
 ]
 TECHNIQUE = 'Lean 4 theorems about a model of MibCompiler.compile over abstract component oracles; differential correspondence (status map + full call trace) against the real compile() driven by scripted doubles; oracle search'
-LEVEL_TEXT = ('Proved in Lean for every configuration, graph, failure placement and option set: phases 1-5 never call the writer; if a failure survives borrowing and errors are not ignored there is no writer call at all and every built module is unprocessed; a name recorded as failed or missing when discovery ends, or a module whose code generation fails, that no borrower delivers does survive to the gate (C09_unrepaired_failure_blocks, C09_generation_failure_blocks), so the premise is stated on what went wrong, not on the internal state at the gate; otherwise the writer calls are exactly one per built module, in order, with its text, and each ends compiled/borrowed/failed as the store step dictates. Tied to compile() by the trace correspondence.')
+LEVEL_TEXT = ('Proved in Lean for every configuration, graph, failure placement and option set: phases 1-5 never call the writer; if a failure survives borrowing and errors are not ignored there is no writer call at all and every built module is unprocessed; a name recorded as failed or missing when discovery ends, or a module whose code generation fails, that no borrower delivers does survive to the gate (C09_unrepaired_failure_blocks, C09_generation_failure_blocks), so the premise is stated on what went wrong, not on the internal state at the gate; and stated on the inputs alone (C09_missing_module_blocks): a requested module that no source has, that no file of any source contains under whatever name, and that no borrower delivers blocks every write when errors are not ignored - the invariant that its failure is recorded and never cleared is carried through the whole discovery loop; otherwise the writer calls are exactly one per built module, in order, with its text, and each ends compiled/borrowed/failed as the store step dictates. Tied to compile() by the trace correspondence.')
 LEVEL_NOTE = ('Trusted: Lean kernel + standard axioms; the hand-written model of compile() (Model/Compile.lean), tied to '
               '/repo by the correspondence on every run; component doubles stand for readers/parser/generators/searchers/'
               'borrowers/writer (their real behaviour is the subject of other properties).')
